@@ -150,7 +150,7 @@ fn hostile_none_argv(r: &mut Rng) -> Vec<String> {
 
 pub fn generate(r: &mut Rng, tier: Tier, _group: u64) -> serde_json::Value {
     let kind = *r.pick(&["none", "none", "none", "git", "doc", "render"]);
-    let (actors, mut ops, _) = c02::gen_history(r, 4, 10);
+    let (actors, mut ops, _) = c02::gen_history_with(r, 4, 10, false);
     let mut argv = vec![];
     let mut doc = String::new();
     match kind {
